@@ -18,6 +18,7 @@ mod suite_build;
 mod suite_entity;
 mod suite_ffixed;
 mod suite_fanyorder;
+mod suite_fanyorder2;
 mod suite_fmap;
 mod suite_fclone;
 mod suite_fidx;
